@@ -6,14 +6,6 @@ import PvProofs.Lemmas.SettlePriceExact
 namespace PvProofs.Settle
 open PvModel PvModel.Settle PvModel.Coins
 
-def NonnegFees (c : Coins) : Prop := ∀ x ∈ c, 0 ≤ x.2
-
-/-- an order as stored: positive assets and price, non-negative fees -/
-structure OrderPos (o : Order) : Prop where
-  assets : 0 < o.assets
-  price : 0 < o.price
-  fees : NonnegFees o.fees
-
 theorem orderPos_of_valid {o : Order} (h : orderValid o = true) : OrderPos o := by
   simp only [orderValid, Bool.and_eq_true, decide_eq_true_eq, List.all_eq_true] at h
   exact ⟨h.1.1.1.1.1, h.1.1.1.1.2, fun x hx => by have := h.1.1.1.2 x hx; omega⟩
